@@ -58,6 +58,9 @@ pub fn install_panic_hook() {
             .map(|l| format!("{}:{}", l.file(), l.line()))
             .unwrap_or_default();
         let text = format!("{} at {}", msg, loc);
+        if std::env::var("SIM_DEBUG").is_ok() {
+            eprintln!("PANIC: {}", text);
+        }
         *LAST_PANIC.lock().unwrap_or_else(|e| e.into_inner()) = Some(text);
     }));
 }
@@ -115,7 +118,7 @@ pub fn execute(
     }
     let mut stats = sim.stats;
     stats.shape_hash = prng::hash_str(&workload.to_string());
-    stats.trace_hash = prng::mix(&[stats.shape_hash, sim.tape.hash]);
+    stats.trace_hash = prng::mix(&[stats.shape_hash, sim.tape.hash, stats.trace_hash]);
     *stats.counters.entry("gc_checks".into()).or_insert(0) += sim.gc_checks;
     let out = CURRENT
         .lock()
